@@ -426,6 +426,11 @@ impl Disk
             error!("invalid CP/M filename");
             return Err(Box::new(Error::BadFormat));
         }
+        // F5-F8 are BDOS interface attributes, never stored: `build_files` rejects a directory that has them
+        if fimg.access.len()==11 && fimg.access[4..8].iter().any(|b| *b>0x7f) {
+            error!("file image sets an interface attribute (F5-F8)");
+            return Err(Box::new(Error::BadFormat));
+        }
         let mut dir = self.get_directory();
         let files = dir.build_files(&self.dpb,self.cpm_vers)?;
         if get_file(xname,&files).is_some() {
